@@ -65,6 +65,9 @@ pub struct Case {
     /// bytes of left-over text at the output path of the generated configuration before it runs
     #[serde(default)]
     pub stale: u32,
+    /// a record start moved onto (or next to) a block boundary of the single-line FASTA text
+    #[serde(default)]
+    pub align: Option<gen::Align>,
 }
 
 fn run_cfg(input: &std::path::Path, out: &std::path::Path, cfg: &OligoCfg, s: &Sched) -> Result<(Vec<u8>, crate::sched::SchedReport), (String, String)> {
@@ -82,8 +85,15 @@ fn first_diff(a: &[u8], b: &[u8]) -> String {
     format!("lengths {} vs {}, first difference at byte {} (line {})", a.len(), b.len(), p, line)
 }
 
-pub fn check_case(c: &Case) -> Verdict {
+pub fn check_case(c0: &Case) -> Verdict {
     let mut v = Verdict::new();
+    let mut c = c0.clone();
+    if let Some(a) = &c0.align {
+        if gen::align_records(&mut c.recs, a).is_some() {
+            v.class(format!("record-start-at-{}{}", a.target, if a.delta == 0 { "" } else if a.delta < 0 { "-inside-header" } else { "-minus" }));
+        }
+    }
+    let c = &c;
     let rt = rank_table(c.k);
     let n = c.recs.len();
     let dir = crate::scratch_dir();
@@ -187,10 +197,12 @@ fn case_strategy(tier: Tier) -> BoxedStrategy<Case> {
             let writer = if mmap { Writer::Mmap } else { Writer::Batch };
             let norm = norm0 || mmap;
             let threads = threads;
-            (gen::records_in_container(p), gen::sched_strategy(mmap, 2 * max_records), io::stale_strategy()).prop_map(move |((recs, cont), sched, stale)| {
+            (gen::records_in_container(p), gen::sched_strategy(mmap, 2 * max_records), io::stale_strategy(), prop_oneof![8 => Just(None), 1 => gen::align_strategy(131072).prop_map(Some), 1 => gen::align_strategy(2 << 20).prop_map(Some)]).prop_map(move |((recs, cont), sched, stale, align)| {
                 // the controlled scheduler is used with up to 6 workers
                 let threads = if matches!(sched, Sched::Controlled(_)) { ((threads - 1) % 6) + 1 } else { threads };
-                Case { recs, cont, k, threads, mem, writer, norm, header, delim: delim.to_string(), sched, stale }
+                // an aligned record start is meaningful for the plain single-line text
+                let cont = if align.is_some() && recs.len() >= 2 { Container::plain_fasta() } else { cont };
+                Case { recs, cont, k, threads, mem, writer, norm, header, delim: delim.to_string(), sched, stale, align }
             })
         })
         .boxed()
@@ -356,7 +368,7 @@ impl Leg for Big {
                         recs.push(Rec { id: "r".into(), desc: None, seq: crate::util::Bytes(b"ACGTTGCAAGGCTTAACCGGTTACGATCG".to_vec()) });
                     }
                     let cont = if recs.iter().any(|r| r.seq.0.is_empty()) && cont.is_fastq() { Container::plain_fasta() } else { cont };
-                    let base = Case { recs, cont, k, threads, mem, writer, norm, header, delim: delim.to_string(), sched: Sched::Free, stale: 0 };
+                    let base = Case { recs, cont, k, threads, mem, writer, norm, header, delim: delim.to_string(), sched: Sched::Free, stale: 0, align: None };
                     BigCase { base, target_bytes: target + slack, long_first }
                 })
             })
